@@ -1,2 +1,144 @@
-/- stub: line-protocol driver for C06 (to be written) -/
-def main : IO Unit := pure ()
+/- Line-protocol driver for the position model (property C06; also used by C15).
+   One op per input line, one canonical line out.  The C++ harness `harness/c06.cpp` answers the same questions by
+   running the real library.
+
+   L <newxta> <consumed|-1> <hex>   lex the block text with the generated rule table, run the tracker;
+                                    -> c=<consumed> tab=<off>:<line>,… errs=<msg>@<l>:<c>-<l>:<c>;…
+   X <stop|-> <addr> <sexp>         XPath string the Path model prints when the reader stands on the node at <addr>
+                                    of the element tree <sexp>  (tags are element names), and what it selects
+-/
+import UtapModel.Model.Pos
+import UtapModel.Model.LexLines
+import UtapModel.Gen.LexRules
+import UtapModel.Gen.PathTable
+import UtapModel.Model.PathCheck
+
+open UtapModel.Pos UtapModel.LexLines
+
+def hexVal (c : Char) : Nat :=
+  if c.toNat ≥ 48 && c.toNat ≤ 57 then c.toNat - 48
+  else if c.toNat ≥ 97 && c.toNat ≤ 102 then c.toNat - 87
+  else if c.toNat ≥ 65 && c.toNat ≤ 70 then c.toNat - 55
+  else 0
+
+def unhex : List Char → List Char
+  | a :: b :: rest => Char.ofNat (hexVal a * 16 + hexVal b) :: unhex rest
+  | _ => []
+
+/-- lexemes until exactly `c` characters are consumed (`none` when `c` is not a lexeme boundary) -/
+def takeConsumed : List Lexeme → Nat → Option (List Lexeme)
+  | _, 0 => some []
+  | [], _ => none
+  | lx :: rest, c =>
+    if lx.chars.length ≤ c then (takeConsumed rest (c - lx.chars.length)).map (lx :: ·) else none
+
+def showLoc (idx : Index) (pos : Nat) : String :=
+  match resolve idx pos with
+  | .ok l => s!"{l.line}:{l.col}"
+  | .error _ => "?"
+
+def lexOp (newxta : Bool) (c : Int) (text : List Char) : String :=
+  let (all, finalMode) := lexAll UtapModel.LexRulesGen.rules .initial text
+  let total := (flat all).length
+  let cN := if c < 0 then total else c.toNat
+  match takeConsumed all cN with
+  | none => s!"c={cN} not-a-lexeme-boundary"
+  | some ls =>
+    -- p0 = 0: positions are relative to the block (the harness subtracts its own p0)
+    let s0 : St := { tr := { line := 0, offset := 0, position := 0, path := "" }, idx := [] }
+    match s0.setPath "/p" with
+    | .error _ => "error"
+    | .ok s1 =>
+      match runLexemes s1 ls with
+      | .error _ => "throws"
+      | .ok s2 =>
+        let tab := s2.idx.map fun e => s!"{e.position - 1}:{e.line}"
+        -- lexer-level diagnostics: (message, start offset, end offset)
+        let rec errs (ls : List Lexeme) (off : Nat) (acc : List (String × Nat × Nat)) : List (String × Nat × Nat) :=
+          match ls with
+          | [] => acc.reverse
+          | lx :: rest =>
+            let e := off + lx.chars.length
+            let acc := match lx.rule.err with
+              | .always m => (m, off, e) :: acc
+              | .unlessOld m => if newxta then (m, off, e) :: acc else acc
+              | _ => acc
+            errs rest e acc
+        let es := errs ls 0 []
+        -- <<EOF>> inside a comment: reported with the location of the last lexeme (EOF rules do not run YY_USER_ACTION)
+        let stillComment := (ls.foldl (fun m lx => modeAfter lx.rule m) Mode.initial) == Mode.comment
+        let es := if cN == total && stillComment then
+            match UtapModel.LexRulesGen.rules.find? (fun r => r.mode == .comment && r.pat == .eof) with
+            | some r =>
+              match r.err with
+              | .always m =>
+                let lastLen := (ls.getLast?.map (·.chars.length)).getD 0
+                es ++ [(m, total - lastLen, total)]
+              | _ => es
+            | none => es
+          else es
+        let _ := finalMode
+        let estr := es.map fun (m, a, b) => s!"{m}@{showLoc s2.idx (1 + a)}-{showLoc s2.idx (1 + b)}"
+        s!"c={cN} tab={",".intercalate tab} errs={";".intercalate estr}"
+
+/-! ### element trees as s-expressions: `(name child child …)` -/
+
+partial def parseNodes (cs : List Char) (acc : List XNode) : List XNode × List Char :=
+  match cs with
+  | [] => (acc.reverse, [])
+  | ')' :: rest => (acc.reverse, rest)
+  | ' ' :: rest => parseNodes rest acc
+  | '(' :: rest =>
+    let name := rest.takeWhile (fun c => c != ' ' && c != '(' && c != ')')
+    let rest := rest.drop name.length
+    let (kids, rest) := parseNodes rest []
+    parseNodes rest (XNode.elem (String.ofList name) kids :: acc)
+  | _ :: rest => parseNodes rest acc
+
+/-- tag enumerator of an element name (tag_map); unknown elements are `NONE` -/
+def tagOfName (n : String) : String :=
+  match UtapModel.PathTableGen.tagMap.find? (·.1 == n) with
+  | some (_, t) => t
+  | none => "NONE"
+
+/-- element name of a tag (inverse of tag_map) -/
+def nameOfTag (t : String) : String :=
+  match UtapModel.PathTableGen.tagMap.find? (·.2 == t) with
+  | some (n, _) => n
+  | none => "?" ++ t
+
+partial def retag : XNode → XNode
+  | .elem n kids => .elem (tagOfName n) (kids.map retag)
+
+def pathOp (stop : String) (addr : List Nat) (sexp : List Char) : String :=
+  let (roots, _) := parseNodes sexp []
+  let roots := roots.map retag
+  let p := Path.run Path.init (prefixTo roots addr)
+  let stopTag := if stop == "-" then none else some stop
+  match p.steps UtapModel.PathTableGen.table stopTag with
+  | none => "xpath_corrupt_error"
+  | some ss =>
+    let sel := select nameOfTag roots ss
+    let selStr := sel.map fun a => ".".intercalate (a.map toString)
+    s!"{renderSteps ss} selects={",".intercalate selStr}"
+
+def stepLine (line : String) : String :=
+  let ws := (line.trimAscii.toString.splitOn " ").filter (· ≠ "")
+  match ws with
+  | ["L", nx, c, hex] => lexOp (nx == "1") (c.toInt?.getD (-1)) (unhex hex.toList)
+  | ["L", nx, c] => lexOp (nx == "1") (c.toInt?.getD (-1)) []
+  | "X" :: stop :: addr :: rest =>
+    let a := (addr.splitOn ".").filterMap String.toNat?
+    pathOp stop a (" ".intercalate rest).toList
+  | ["B"] => ",".intercalate (UtapModel.PathCheck.badRows.map fun r => s!"{r.tag}:{r.name}:{UtapModel.PathCheck.elementName r.tag}")
+  | _ => "bad-op"
+
+partial def loop (h : IO.FS.Stream) (out : IO.FS.Stream) : IO Unit := do
+  let line ← h.getLine
+  if line.isEmpty then return ()
+  out.putStrLn (stepLine line)
+  loop h out
+
+def main : IO Unit := do
+  let out ← IO.getStdout
+  loop (← IO.getStdin) out
